@@ -1,6 +1,31 @@
-import Brax.Model.C02
+import Brax.Lemmas.C02
 /-!
-# C02 — generalized-pipeline dynamics terms equal the reference engine (theorems: stage 3)
+# C02 — generalized-pipeline dynamics terms equal the reference engine
+
+Model: `Brax/Model/C02.lean` (`Brax.Gd`), tied to `/repo` on every run by `harness/corr_C02.py`
+(every stage, float 1e-9; exact on the integer lattice for the polynomial stages).
+Spec: `Brax/Spec/C02.lean` (`Brax.MjD`, MuJoCo's sequential algorithms), tied to the real
+`MjData` by the second leg.  Only property theorems and non-vacuity examples live here.
 -/
+set_option linter.unusedSectionVars false
 namespace Brax.C02
+open Brax Kin Gd
+
+/-! ## the joint-space inertia matrix is symmetric -/
+
+/-- **`mass.matrix` returns a symmetric matrix**, for every forest, every `cinr`, `cdof`,
+armature — by construction (`tril(mx) + tril(mx,-1)ᵀ + diag`), whatever the scalar type. -/
+theorem massMatrix_symm {α : Type} [Zero α] [One α] [Add α] [Sub α] [Mul α]
+    (ps : List Int) (cinr : List (Inertia α)) (cdof : List (List (Motion α))) (arm : List (List α))
+    (i j : Nat) :
+    entry (massMatrix ps cinr cdof arm) i j = entry (massMatrix ps cinr cdof arm) j i := by
+  unfold massMatrix
+  simp only
+  generalize ((List.range cdof.length).flatMap fun l =>
+    (List.range (cdof.getD l []).length).map fun r => (l, r)) = idx
+  rw [entry_map_map idx (fun lr as => massEntry ps (crb ps cinr) cdof arm lr.1 lr.2 as.1 as.2),
+    entry_map_map idx (fun lr as => massEntry ps (crb ps cinr) cdof arm lr.1 lr.2 as.1 as.2)]
+  cases idx[i]? <;> cases idx[j]? <;> simp only
+  exact massEntry_symm _ _ _ _ _ _ _ _
+
 end Brax.C02
